@@ -67,6 +67,9 @@ impl World for OneshotWorld {
     fn id(&self) -> u8 {
         5
     }
+    fn shared_wakers(&self) -> bool {
+        true
+    }
     fn name(&self) -> &'static str {
         "oneshot"
     }
@@ -78,7 +81,7 @@ impl World for OneshotWorld {
         let mut v = Vec::new();
         for flavour in [FL_LOCAL, FL_SYNC, FL_CHECKED, FL_SHARED, FL_SHARED_CHECKED] {
             for mode in [0u8, 1] {
-                v.push(Cfg { flavour, mode, x: 0, y: 0, k });
+                v.push(Cfg { flavour, mode, x: 0, y: 0, k, sw: 0 });
             }
         }
         v
@@ -89,7 +92,7 @@ impl World for OneshotWorld {
         let mut v = Vec::new();
         for flavour in [FL_CHECKED, FL_SHARED_CHECKED] {
             for mode in [0u8, 1] {
-                v.push((Cfg { flavour, mode, x: 0, y: 0, k }, 200));
+                v.push((Cfg { flavour, mode, x: 0, y: 0, k, sw: 0 }, 200));
             }
         }
         v
@@ -195,6 +198,7 @@ struct Model {
 
 fn run_m<M: RawMutex + 'static>(cfg: &Cfg, ops: &[Op], run: &mut Run) {
     tls::reset_history();
+    tls::set_shared_b(cfg.sw == 1);
     payload::reset();
     let shared = cfg.flavour >= FL_SHARED;
     let bc = cfg.mode == 1;
